@@ -31,10 +31,23 @@ def chain (step : σ → τ → σ) (en : σ → τ → Bool) (t : τ) : Nat →
   | 0, c => [c]
   | n + 1, c => if en c t then c :: chain step en t n (step c t) else [c]
 
+/-- the states of `chain` that show observation `o`, computed with an early exit: once the chain has
+    shown `o` and left it again it is not followed any further (in the three models a thread never
+    brings the observation back to an earlier value: counters only grow) -/
+def chainTo [DecidableEq ο] (step : σ → τ → σ) (en : σ → τ → Bool) (obs : σ → ο) (t : τ) (o : ο) :
+    Nat → Bool → σ → List σ
+  | fuel, seen, c =>
+    let here := decide (obs c = o)
+    if seen && !here then [] else
+    let rest := match fuel with
+      | 0 => []
+      | n + 1 => if en c t then chainTo step en obs t o n (seen || here) (step c t) else []
+    if here then c :: rest else rest
+
 /-- one observed turn of thread `t` ending in observation `o` -/
 def advance [DecidableEq ο] (step : σ → τ → σ) (en : σ → τ → Bool) (obs : σ → ο)
     (prune : List σ → List σ) (fuel : Nat) (S : List σ) (t : τ) (o : ο) : List σ :=
-  prune (S.flatMap fun c => (chain step en t fuel c).filter fun c' => decide (obs c' = o))
+  prune (S.flatMap fun c => chainTo step en obs t o fuel false c)
 
 /-- the model states consistent with the whole observed trace -/
 def follow [DecidableEq ο] (step : σ → τ → σ) (en : σ → τ → Bool) (obs : σ → ο)
@@ -65,8 +78,8 @@ def pruneBy (key : σ → String) (l : List σ) : List σ := pruneGo key l {}
 
 /-- the test the driver runs: the initial observation is the model's, and the trace is followed from
     the model's initial state (duplicates removed by `key`) -/
-def admitsInit (step : σ → τ → σ) (en : σ → τ → Bool) (obs : σ → String) (key : σ → String)
-    (fuel : Nat) (c0 : σ) (o0 : String) (tr : List (τ × String)) : Bool :=
+def admitsInit [DecidableEq ο] (step : σ → τ → σ) (en : σ → τ → Bool) (obs : σ → ο) (key : σ → String)
+    (fuel : Nat) (c0 : σ) (o0 : ο) (tr : List (τ × ο)) : Bool :=
   admits step en obs (pruneBy key) fuel (if obs c0 = o0 then [c0] else []) tr
 
 /-- how many consecutive model steps of one thread a single observed turn may stand for -/
